@@ -45,6 +45,7 @@ func (vfs *MemIOFS) Sub(dir string) (fs.FS, error) {
 
 	subFS := *vfs
 	subFS.rootNode = c
+	subFS.volumes = vfs.subVolumes(dir, c)
 
 	return &subFS, nil
 }
